@@ -226,3 +226,9 @@ def run(F, rep):
                       '%s walks the children only when %s: imports nested under an imported component are never reached' % (g.short, ' and '.join('`%s` takes its %s branch' % o for o in outer)), 'children walked for every component')
     if n_v < 2:
         raise AnalysisBroken('C07.V1: recursive child loops of void walkers vanished (%d found)' % n_v)
+
+    # ------------------------------------------------------------------ A: verdicts gathered over loops
+    from engines import rule_accumulators
+    rule_accumulators(F, rep, 'C07.A1', lambda g: g.file.endswith('/importer.cpp'), 3, 'importer.cpp', 'a failure of an earlier import (or the fact that an error is related to the requested item) is forgotten when a later one is fine')
+
+
